@@ -709,9 +709,11 @@ pub fn gen_param_of(rng: &mut Rng, typ: u8, unsigned: bool, null: bool) -> Param
         let (lo, hi) = int_range(typ, unsigned);
         Some(PVal::Int(gen_int_in(rng, lo, hi)))
     } else if typ == wire::T_FLOAT {
-        Some(PVal::F32(gen_f32_bits(rng)))
+        // a parameter is four (eight) bytes of the client's: the infinities and (quiet) NaNs are
+        // values like any other there
+        Some(PVal::F32(if rng.chance(1, 8) { *rng.pick(&[0x7F80_0000u32, 0xFF80_0000, 0x7FC0_0000, 0xFFC0_0001]) } else { gen_f32_bits(rng) }))
     } else if typ == wire::T_DOUBLE {
-        Some(PVal::F64(gen_f64_bits(rng)))
+        Some(PVal::F64(if rng.chance(1, 8) { *rng.pick(&[0x7FF0_0000_0000_0000u64, 0xFFF0_0000_0000_0000, 0x7FF8_0000_0000_0000, 0xFFF8_0000_0000_0001]) } else { gen_f64_bits(rng) }))
     } else if wire::is_stringish(typ) {
         Some(PVal::Bytes(gen_bytes(rng, 100_000)))
     } else {
